@@ -3,7 +3,7 @@
    gc_preserves_live, after_gc_allocated_eq_reachable. *)
 From Coq Require Import Lia FMapPositive Permutation.
 From MW Require Import Model.Base Model.F64 Model.Num Model.Datum Model.TransformDef
-  Model.VmTypes Model.Heap Model.Gc.
+  Model.VmTypes Model.Heap Model.VmBase Model.Gc.
 Open Scope N_scope.
 
 (* ------------------------------------------------------------------ tables *)
@@ -438,7 +438,7 @@ End MarkProofs.
    stack[0..=sp], acc, ip.0, ep *)
 Definition root (order : list N) (v : vm) (a : N) : Prop :=
   In a order \/ In a (slot_ptrs (g_slots v))
-  \/ (exists x, In x (firstn (N.to_nat (sp v + 1)) (stack v)) /\ vref (st v) x a)
+  \/ (exists x, In x (stack_to_sp v) /\ vref (st v) x a)
   \/ vref (st v) (acc v) a \/ a = fst (ip v) \/ a = ep v.
 
 Definition reach (v : vm) (a : N) : Prop :=
@@ -460,7 +460,7 @@ Proof.
   apply bind_ok_inv in H as [m1 [H1 H]]. apply bind_ok_inv in H as [m2 [H2 H]].
   apply bind_ok_inv in H as [stk [Hs H]]. apply bind_ok_inv in H as [m3 [H3 H]].
   apply bind_ok_inv in H as [m4 [H4 H]]. apply bind_ok_inv in H as [m5 [H5 H6]].
-  destruct (sp v + 1 <=? N.of_nat (length (stack v))); [|discriminate]. injection Hs as <-.
+  destruct (sp v <? scap v); [|discriminate]. injection Hs as <-.
   apply (mark_addrs_spec (hp v) (st v)) in H1; [|intros; eapply mark_spec; eassumption].
   apply (mark_addrs_spec (hp v) (st v)) in H2; [|intros; eapply mark_spec; eassumption].
   apply mark_list_spec in H3. apply mark_vcell_spec in H4.
@@ -647,9 +647,9 @@ End Fuel.
    enough for the whole root enumeration *)
 Definition roots_closed (vd : nat) (v : vm) : Prop :=
   heap_closed (hp v) (st v) vd
-  /\ (forall x, In x (firstn (N.to_nat (sp v + 1)) (stack v)) -> vclosed (st v) (S vd) x = true)
+  /\ (forall x, In x (stack_to_sp v) -> vclosed (st v) (S vd) x = true)
   /\ vclosed (st v) (S vd) (acc v) = true
-  /\ sp v + 1 <= N.of_nat (length (stack v)).
+  /\ sp v < scap v.
 
 Lemma mark_list_total : forall h s vd f vf l m, heap_closed h s vd ->
   (forall x, In x l -> vclosed s vf x = true) -> (unmarked h m < f)%nat ->
@@ -683,7 +683,7 @@ Proof.
   destruct (mark_addrs_total' _ _ vd fuel order m0 HC Hf) as [m1 [E1 L1]]. rewrite E1. cbn [bind].
   destruct (mark_addrs_total' _ _ vd fuel (slot_ptrs (g_slots v)) m1 HC) as [m2 [E2 L2]]; [lia|].
   rewrite E2. cbn [bind].
-  apply N.leb_le in Hsp. rewrite Hsp. cbn [bind].
+  apply N.ltb_lt in Hsp. rewrite Hsp. cbn [bind].
   destruct (mark_list_total _ _ vd fuel (S vd) _ m2 HC Hstk) as [m3 [E3 L3]]; [lia|].
   rewrite E3. cbn [bind].
   destruct (mark_vcell_total _ _ vd fuel (S vd) (acc v) m3 HC Hacc) as [m4 E4]; [lia|].
@@ -979,6 +979,16 @@ Proof.
   intros s n x a Hin [k Hk]. apply repeat_spec in Hin. subst x. destruct k; cbn in Hk; exact Hk.
 Qed.
 
+(* the same for the machine state: after Stack::clear (end of a successful evaluation,
+   and — with fix F5 on main — on the error path too) the stack table is empty, every slot
+   reads Undefined, and the stack contributes no root *)
+Lemma stack_wipe_drops_roots_vm : forall v x a,
+  stack v = tempty -> In x (stack_to_sp v) -> ~ vref (st v) x a.
+Proof.
+  intros v x a E Hin [k Hk]. unfold stack_to_sp in Hin. apply in_map_iff in Hin as [i [<- _]].
+  unfold sget in Hk. rewrite E, tget_tempty in Hk. destruct k; cbn in Hk; exact Hk.
+Qed.
+
 (* a small machine state used as the non-vacuity witness of the theorems: a pair (cell 0)
    of a symbol (1) and nil (2) on the stack, an unreachable cyclic pair (3), a vector cell
    (4) in acc whose element points to a number (5); 6 and 7 are free *)
@@ -993,4 +1003,4 @@ Definition ex_heap : heap :=
 Definition ex_store : store :=
   mk_store tempty (tset tempty 0 [VPtr 5]) tempty tempty tempty tempty 1.
 Definition ex_vm : vm :=
-  mk_vm ex_heap ex_store [] [] [VUndef; VPtr 0; VUndef] 1 0 USIZE_MAX (USIZE_MAX, 0) (VPtr 4) [] None.
+  mk_vm ex_heap ex_store [] [] (tset tempty 1 (VPtr 0)) 256 1 0 USIZE_MAX (USIZE_MAX, 0) (VPtr 4) [].
